@@ -163,6 +163,15 @@ theorem interleaved_nothing_passed_over (now : Nat) (ks : List Nat) (s : CState)
     (∃ rest, (sweepTurn now ks s).2.2 = some rest ∧ k ∈ rest.keys) :=
   overdue_not_skipped now ks s k at_ m hk hg hexp
 
+open SmppVerif.SweepTasks SmppVerif.Lemmas.SweepTasks in
+/-- The two models agree where they overlap: the atomic sweep of the tier 2 model (on which the history-level theorems
+    above rest) is what the turn-level sweep does when it is resumed at once every time it suspends — same final stores,
+    same hook calls in the same order. -/
+theorem atomic_sweep_is_uninterrupted_turns (s : CState) (now : Nat) :
+    (removeExpired s now).1 = (sweepAll now (s.store.length + 1) (s.store.map (·.1)) s).1 ∧
+    (removeExpired s now).2 = (sweepAll now (s.store.length + 1) (s.store.map (·.1)) s).2.flatMap outsOf :=
+  removeExpired_eq_sweepAll s now
+
 /-- non-vacuity (kernel evaluation of the turn-level model): two overdue requests; the probe's sweep reports the first and is
     suspended in the hook; meanwhile a late response for the second starts its own operation (found: matched), whose sweep
     finds nothing left to report; the probe's sweep resumes, skips the second (gone) and stores the probe.  One outcome each. -/
@@ -190,3 +199,4 @@ end SmppVerif.Props.C14
 #print axioms SmppVerif.Props.C14.removals_bounded_by_insertions
 #print axioms SmppVerif.Props.C14.interleaved_never_early
 #print axioms SmppVerif.Props.C14.interleaved_nothing_passed_over
+#print axioms SmppVerif.Props.C14.atomic_sweep_is_uninterrupted_turns
